@@ -2,6 +2,7 @@
 package c16
 
 import (
+	"encoding/json"
 	"fmt"
 	"testing"
 	"time"
@@ -57,10 +58,54 @@ func allHM() []spec.HM {
 type hmPair struct {
 	A spec.HM `json:"a"`
 	B spec.HM `json:"b"`
+	// Via: how each value was made - 0 NewHHmm, 1 HHmmFromString, 2 HHmmFromTime (24:00: NewHHmm), 3 decoded from JSON, 4 decoded
+	// from its two BCD bytes. A value is the same value however it came into being.
+	Via [2]uint8 `json:"made_via,omitempty"`
+}
+
+var hmTables [5]map[spec.HM]types.HHmm
+
+// hmVia makes the value through constructor `via` (memoised: the all-pairs sweep uses each value 2 x 1441 times).
+func hmVia(h spec.HM, via uint8) types.HHmm {
+	via %= 5
+	if hmTables[via] == nil {
+		hmTables[via] = map[spec.HM]types.HHmm{}
+	}
+	if v, ok := hmTables[via][h]; ok {
+		return v
+	}
+	v := types.NewHHmm(h.H, h.M)
+	switch via {
+	case 1:
+		if p, err := types.HHmmFromString(fmt.Sprintf("%02d:%02d", h.H, h.M)); err == nil && p != nil {
+			v = *p
+		}
+	case 2:
+		if h.H < 24 {
+			v = types.HHmmFromTime(time.Date(2024, 6, 15, h.H, h.M, 42, 999, time.UTC))
+		}
+	case 3:
+		var x types.HHmm
+		if json.Unmarshal([]byte(fmt.Sprintf("%q", fmt.Sprintf("%02d:%02d", h.H, h.M))), &x) == nil {
+			v = x
+		}
+	case 4:
+		var x types.HHmm
+		if y, err := x.UnmarshalUT0311L0x([]byte{byte(h.H/10<<4 | h.H%10), byte(h.M/10<<4 | h.M%10)}); err == nil {
+			switch z := y.(type) {
+			case *types.HHmm:
+				v = *z
+			case types.HHmm:
+				v = z
+			}
+		}
+	}
+	hmTables[via][h] = v
+	return v
 }
 
 func decideHM(p hmPair) *rp.Fail {
-	a, b := hm(p.A), hm(p.B)
+	a, b := hmVia(p.A, p.Via[0]), hmVia(p.B, p.Via[1])
 	before, after, equal := a.Before(b), a.After(b), a.Equals(b)
 	want := lexHM(p.A, p.B)
 	n := 0
@@ -96,8 +141,9 @@ func TestHHmmAllPairs(t *testing.T) {
 			if (a.H != b.H) != (a.M != b.M) {
 				nt++
 			}
-			if f := decideHM(hmPair{a, b}); f != nil {
-				if ev.Failure("hhmm-pair", f.Fingerprint, f.Msg, hmPair{a, b}) {
+			via := [2]uint8{uint8((i*31 + b.H*7 + b.M) % 5), uint8((i*17 + b.H*3 + b.M*5) % 5)}
+			if f := decideHM(hmPair{A: a, B: b, Via: via}); f != nil {
+				if ev.Failure("hhmm-pair", f.Fingerprint, f.Msg, hmPair{A: a, B: b, Via: via}) {
 					t.Errorf("[%s] %s", f.Fingerprint, f.Msg)
 					return
 				}
@@ -105,7 +151,7 @@ func TestHHmmAllPairs(t *testing.T) {
 		}
 	}
 	ev.Bulk("hhmm/all-pairs", n, nt)
-	ev.Sample("hhmm/all-pairs", hmPair{spec.HM{H: 9, M: 59}, spec.HM{H: 10, M: 0}})
+	ev.Sample("hhmm/all-pairs", hmPair{A: spec.HM{H: 9, M: 59}, B: spec.HM{H: 10, M: 0}})
 }
 
 // dates ------------------------------------------------------------------------------------------
@@ -448,9 +494,22 @@ func genDT(t *rapid.T) dtCase {
 
 type profCase struct {
 	Segs [6]spec.HM `json:"segs"`
+	// Zone / From: the process zone and the profile's start date - a day on which that zone changes its clock, with the segment
+	// boundaries drawn around the change. Whether a segment ends before it starts is a matter of (hour, minute) alone.
+	Zone string     `json:"zone,omitempty"`
+	From spec.Civil `json:"from,omitempty"`
 }
 
-func checkProfile(c profCase) *rp.Fail {
+func checkProfile(c profCase) (f *rp.Fail) {
+	if c.Zone == "" {
+		return checkProfileZ(c)
+	}
+	ev.Class("profile/starts-on-a-day-the-process-zone-changes-its-clock", 1)
+	zones.With(zones.Loc(c.Zone), func() { f = checkProfileZ(c) })
+	return f
+}
+
+func checkProfileZ(c profCase) *rp.Fail {
 	accept := true
 	equalEdge := false
 	for i := 0; i < 3; i++ {
@@ -477,6 +536,9 @@ func checkProfile(c profCase) *rp.Fail {
 	ok[8] = 1
 	d.Reset(ok)
 	call := spec.Call{Op: "SetTimeProfile", Serial: 405419896, Profile: 29, From: spec.Civil{Y: 2024, M: 1, D: 1}, To: spec.Civil{Y: 2024, M: 12, D: 31}, Segments: c.Segs}
+	if c.From.Y != 0 {
+		call.From, call.To = c.From, spec.Civil{Y: c.From.Y + 1, M: 12, D: 31}
+	}
 	res := api.Invoke(u, api.Case{Call: call, V: api.Variant{WeekPresent: [7]bool{true, true, true, true, true, true, true}}})
 	if res.Panic != nil {
 		return rp.Failf("uhppote.SetTimeProfile/panic", "%v", res.Panic)
@@ -492,6 +554,51 @@ func checkProfile(c profCase) *rp.Fail {
 }
 
 func genProfile(t *rapid.T) profCase {
+	c := genProfilePlain(t)
+	if rapid.IntRange(0, 2).Draw(t, "clock.change") == 0 {
+		zone := rapid.SampledFrom(append(zones.Spread(30), "Europe/Paris", "Australia/Lord_Howe", zones.Synthetic)).Draw(t, "zone")
+		loc := zones.Loc(zone)
+		if trs := zones.Transitions(zone, 2010, 2035); len(trs) > 0 {
+			tr := trs[rapid.IntRange(0, len(trs)-1).Draw(t, "transition")]
+			before, after := tr.Add(-time.Second).In(loc), tr.In(loc)
+			day := before
+			if rapid.Bool().Draw(t, "day.after") {
+				day = after
+			}
+			if zones.DayExists(loc, day.Year(), int(day.Month()), day.Day()) {
+				c.Zone, c.From = zone, spec.Civil{Y: day.Year(), M: int(day.Month()), D: day.Day()}
+				// boundaries within 75 minutes of the wall-clock readings on both sides of the change
+				lo, hi := before.Hour()*60+before.Minute(), after.Hour()*60+after.Minute()
+				if lo > hi {
+					lo, hi = hi, lo
+				}
+				for i := range c.Segs {
+					if rapid.IntRange(0, 3).Draw(t, "near") != 0 {
+						m := rapid.IntRange(lo-75, hi+75).Draw(t, "minute")
+						if m < 0 {
+							m = 0
+						}
+						if m > 24*60 {
+							m = 24 * 60
+						}
+						c.Segs[i] = spec.HM{H: m / 60, M: m % 60}
+					}
+				}
+			}
+		}
+	}
+	// half of the profiles are valid ones: every reversed segment is put in order (equal boundaries stay)
+	if rapid.Bool().Draw(t, "valid") {
+		for i := 0; i < 3; i++ {
+			if lexHM(c.Segs[2*i+1], c.Segs[2*i]) < 0 {
+				c.Segs[2*i], c.Segs[2*i+1] = c.Segs[2*i+1], c.Segs[2*i]
+			}
+		}
+	}
+	return c
+}
+
+func genProfilePlain(t *rapid.T) profCase {
 	var c profCase
 	for i := 0; i < 3; i++ {
 		a := gen.HM(t, "start")
@@ -522,18 +629,19 @@ func genProfile(t *rapid.T) profCase {
 }
 
 type hmTriple struct {
-	V [3]spec.HM `json:"v"`
+	V   [3]spec.HM `json:"v"`
+	Via [3]uint8   `json:"made_via,omitempty"`
 }
 
 func checkHMTriple(c hmTriple) *rp.Fail {
 	ev.Case("hhmm/triple", true, fmt.Sprint(c))
 	for i := 0; i < 3; i++ {
 		for j := 0; j < 3; j++ {
-			if f := decideHM(hmPair{c.V[i], c.V[j]}); f != nil {
+			if f := decideHM(hmPair{A: c.V[i], B: c.V[j], Via: [2]uint8{c.Via[i], c.Via[j]}}); f != nil {
 				return f
 			}
 			for k := 0; k < 3; k++ {
-				if hm(c.V[i]).Before(hm(c.V[j])) && hm(c.V[j]).Before(hm(c.V[k])) && !hm(c.V[i]).Before(hm(c.V[k])) {
+				if x, y, z := hmVia(c.V[i], c.Via[i]), hmVia(c.V[j], c.Via[j]), hmVia(c.V[k], c.Via[k]); x.Before(y) && y.Before(z) && !x.Before(z) {
 					return rp.Failf("types.HHmm/transitivity", "%v < %v < %v but not %v < %v", c.V[i], c.V[j], c.V[k], c.V[i], c.V[k])
 				}
 			}
@@ -547,7 +655,8 @@ func props() []rp.Prop {
 	return []rp.Prop{
 		rp.P[hmPair]{Name: "hhmm-pair", Check: decideHM},
 		rp.P[hmTriple]{Name: "hhmm-triple", Checks: n, Gen: func(t *rapid.T) hmTriple {
-			return hmTriple{[3]spec.HM{gen.HM(t, "a"), gen.HM(t, "b"), gen.HM(t, "c")}}
+			return hmTriple{V: [3]spec.HM{gen.HM(t, "a"), gen.HM(t, "b"), gen.HM(t, "c")},
+				Via: [3]uint8{uint8(rapid.IntRange(0, 4).Draw(t, "via.a")), uint8(rapid.IntRange(0, 4).Draw(t, "via.b")), uint8(rapid.IntRange(0, 4).Draw(t, "via.c"))}}
 		}, Check: checkHMTriple},
 		rp.P[dateTriple]{Name: "dates", Checks: n, Gen: genDates, Sweep: sweepDates, Check: checkDates},
 		rp.P[dtCase]{Name: "datetime", Checks: n, Gen: genDT, Check: checkDT},
